@@ -74,6 +74,36 @@ func runC30(c *Ctx) {
 		}
 	})
 
+	c.Rule("lookup-inside-flight", func() {
+		// the closure serialized per identity must look the grain table up itself: a result captured before entering the
+		// flight is stale by the time the closure runs (another caller may have created and registered the process)
+		run := c.FuncObj("actor", "actorSystem.runGrainActivation")
+		grains := c.Field("actor", "actorSystem", "grains")
+		n := 0
+		for _, u := range c.UsesOf(run) {
+			if u.Call == nil || u.EnclObj == nil || len(u.Call.Args) < 2 {
+				continue
+			}
+			lit, ok := u.Call.Args[1].(*ast.FuncLit)
+			if !ok {
+				continue
+			}
+			info := u.Pkg.TypesInfo
+			lf := c.NewLitFlow(u.EnclName()+"$flight", info, lit)
+			lookup := lf.CallOnField(grains, "Get")
+			act := lf.CallTo(c.FuncObj("actor", "actorSystem.ensureNewGrainProcess"), c.FuncObj("actor", "actorSystem.ensureExistingGrainProcess"))
+			if len(lf.Find(act)) == 0 {
+				continue
+			}
+			n++
+			w := lf.MustPrecede(lookup, nil, act)
+			c.Check(w == nil && len(lf.Find(lookup)) >= 1, "lookup-inside-flight@"+u.EnclName(), "inside the per-identity single flight the grain table is looked up again before a process is created or re-activated", u.Where(c.P), "the closure decides on a lookup made outside the flight: "+lf.describe(w))
+		}
+		if n == 0 {
+			c.Undecided("lookup-inside-flight/sites", "single-flight closures that create/activate a grain process found", "-", "none found")
+		}
+	})
+
 	c.Rule("claim-before-activate", func() {
 		own := c.FuncObj("actor", "actorSystem.ensureGrainOwnership")
 		claim := c.FuncObj("actor", "actorSystem.tryClaimGrain")
